@@ -268,6 +268,11 @@ def run(M, rep, tier, only=None):
                 if lt == "Tagged":
                     if not calc or not inb:
                         bad = (p, "a tagged feature is returned without computing the region's slices under the bounds refusal")
+                    else:
+                        rule = calc[-1].kw.get("stop_rule") or (calc[-1].args[-1] if calc[-1].args else None)
+                        if rule is None or rule.t != ("param", "stop_rule"):
+                            bad = (p, "the requested stop rule does not reach the region computation of a tagged feature (%s): "
+                                   "feature_data and tagged_data then cut the same region differently" % (show(rule.t) if rule is not None else "default"))
                 elif lt == "Indexed" and cn == "MultiTag":
                     sl = [x for x in subterms(p.terminal[1].t) if x and x[0] == "slice"]
                     heap_sl = " ".join(show(v.t) for v in p.heap.values())
